@@ -1,4 +1,5 @@
 import CedarVerif.Driver.Codec
+import CedarVerif.Cedar.SetRepr
 /- Driver ops of the core model: eval, auth, like, ext (C01, C02, C07). -/
 namespace CedarVerif.Ops
 open CedarVerif Cedar
@@ -27,6 +28,13 @@ def handleCore (x : Sexp) : Option String :=
     match decValues args with
     | some vs => some (encResult (callExt fn vs))
     | none => some "(bad-op)"
+  | .list [.atom "setop", .list (.atom "set" :: xs), .list (.atom "set" :: ys), v] =>
+    -- mirror of `ast::value::Set` (fast / authoritative paths): contains, is_subset, is_disjoint, ==
+    match decValues xs, decValues ys, decValue v with
+    | some xs, some ys, some v =>
+      let s := SetRepr.make xs; let o := SetRepr.make ys
+      some s!"(setop {s.contains v} {s.isSubset o} {s.isDisjoint o} {s.eq o} {s.fast.isSome} {s.authoritative.length})"
+    | _, _, _ => some "(bad-op)"
   | _ => none
 
 end CedarVerif.Ops
